@@ -72,6 +72,9 @@ type glTarget struct {
 	blockUpto   string
 	blockResult string
 	blockResGo  string
+	// blockReach: for a block of a handler (no results) whose statements may `return`: falling out of the block
+	// appends this entry to the trace and returns — "the handler got past these statements"
+	blockReach string
 }
 
 type glTypeCase struct {
@@ -119,6 +122,7 @@ type glCtx struct {
 	known      map[string]*glTarget // translated functions of the same group/package by name
 	usesExt    map[string]bool
 	effectDone map[*ast.AssignStmt]bool
+	reach      string   // see glTarget.blockReach
 	deferred   []string // trace entries of deferred effect calls, in the order the defers were executed
 }
 
@@ -207,7 +211,7 @@ var glLib = map[string]glExtern{
 	"errors.New":        {lean: "some", ret: []string{"error"}},
 }
 
-var glIgnoredCallPrefixes = []string{"logger.", "log.", "state.logger.", "s.logger.", "pa.logger.", "state.Mutex.", "logger .", "fmt.Print"}
+var glIgnoredCallPrefixes = []string{"logger.", "log.", "state.logger.", "s.logger.", "pa.logger.", "state.Mutex.", "w.(", "logger .", "fmt.Print"}
 
 func (c *glCtx) ignorable(call *ast.CallExpr) bool {
 	s := c.p.str(call.Fun)
@@ -825,6 +829,12 @@ func (c *glCtx) fallthroughEnd(n ast.Node) string {
 		return "KM.Go.Ctl.next " + tuple(c.state)
 	}
 	if c.void {
+		if c.reach != "" {
+			return "((), trace_ ++ [" + c.reach + "])"
+		}
+		if c.t.traceLean != "" {
+			return "((), trace_)"
+		}
 		return "()"
 	}
 	c.fail(n, "control reaches the end of a function that returns a value")
@@ -1593,6 +1603,18 @@ func (c *glCtx) block(fd *ast.FuncDecl) string {
 		c.fail(fd, "block %q … %q not found in %s", c.t.blockFrom, c.t.blockUpto, fd.Name.Name)
 	}
 	list := append([]ast.Stmt{}, fd.Body.List[from:upto]...)
+	if c.t.blockReach != "" {
+		if c.t.traceLean == "" || !(fd.Type.Results == nil || len(fd.Type.Results.List) == 0) {
+			c.fail(fd, "blockReach needs a trace and a function without results")
+		}
+		c.void = true
+		c.nres = 0
+		c.declare("trace_", "[]effect")
+		pre := "let trace_ := ([] : List " + c.t.traceLean + ");" + ind(1)
+		c.reach = c.t.blockReach
+		body := c.stmts(list, 1)
+		return "def " + c.t.name + " " + c.t.binders + " : " + c.t.retLean + " :=\n  " + pre + body + "\n"
+	}
 	for _, st := range list {
 		ast.Inspect(st, func(n ast.Node) bool {
 			switch n.(type) {
